@@ -193,6 +193,12 @@ class Joiner:
             if c not in A.cells:
                 J.cells[c] = B.cells[c]
         J.cells.update(self.merged)
+        # element reads both sides made of the very same sequence value, with the very same result, stay valid
+        if A.emem and B.emem:
+            for k_, ev_ in A.emem.items():
+                bv_ = B.emem.get(k_)
+                if bv_ is not None and bv_[0] is ev_[0] and bv_[1] is ev_[1]:
+                    J.emem[k_] = ev_
         # intervals.  A symbol that no value of one side can reach is meaningless on that side's
         # paths: take the other side's interval instead of the hull.
         self.dead_in_a = set()
